@@ -27,6 +27,7 @@ RULE = ('Entry "permute": generated C01/C02 cases; the same sources are fitted w
         'Non-trivial: a non-identity permutation of >=2 filters / >=2 models; c != 1; a history of >=3 fits in which a '
         'source is fitted again after a different one.')
 RULE += (' ' + 'Also varied: mixed named / wavelength filter lists with cube and convolved files in different units, the same filter listed twice.')
+RULE += (' ' + 'History machine: unnamed sources, memory-mapped cube cases, and an other_fitter rule (a second fitter with reversed filters / other ranges is created, used and kept alive).')
 ASSUMPTIONS = [
     'paired runs that change the summation order are compared at 1e-9 relative (+1e-13*cond on the 2-D parameters)',
     'history independence and source immutability are compared bit-exactly (same operations, same bits)',
